@@ -51,5 +51,83 @@ theorem drop_destroys_all_stored (w : World) :
       rw [← compTy_eq_tyOf, if_pos hn]
       exact List.mem_singleton.2 rfl
 
+/-- a value `World::get` reads is a cell of a column that sits under its component index -/
+theorem readable_position {w : World} (wf : w.entities.WF) {e : Key} {c : Nat} {y : Cell}
+    (h : w.getCell e c = some y) :
+    ∃ (i : Nat) (a : Arch) (j : Nat) (col : List Cell), w.archs.get i = some a ∧ a.comps[j]? = some c ∧
+      a.cols[j]? = some col ∧ y ∈ col := by
+  rw [world_getCell_eq wf] at h
+  cases he : w.entities.get e with
+  | none => rw [he] at h; cases h
+  | some loc =>
+    rw [he] at h
+    dsimp only at h
+    cases ha : w.archs.get loc.arch with
+    | none => rw [ha] at h; cases h
+    | some a =>
+      rw [ha] at h
+      dsimp only at h
+      unfold Arch.readCell Arch.colIdx at h
+      cases hj : a.comps.idxOf? c with
+      | none => rw [hj] at h; cases h
+      | some j =>
+        rw [hj] at h
+        simp only [Option.bind_eq_bind, Option.bind_some] at h
+        cases hcol : a.cols[j]? with
+        | none => rw [hcol] at h; cases h
+        | some col =>
+          rw [hcol] at h
+          refine ⟨loc.arch, a, j, col, ha, ?_, hcol, List.mem_of_getElem? h⟩
+          rw [List.idxOf?_eq_some_iff] at hj
+          obtain ⟨hlt, hget, -⟩ := hj
+          rw [List.getElem?_eq_getElem hlt, hget]
+
+/-- **(i) … in particular everything the API can read**: after `drop`, every value `World::get` could read in `w` whose
+    component type has a destructor is in the ledger -/
+theorem drop_destroys_what_is_readable {w w' : World} (wf : w.entities.WF)
+    (h : (execOp .drop).run.run w = (.ok [], w')) {e : Key} {c : Nat} {y : Cell} (hy : w.getCell e c = some y)
+    (hn : compNeedsDrop (w.compTy c) = true) : (w.compTy c, y.ser) ∈ w'.cdrops := by
+  obtain ⟨w'', h', -, -, -, -, hall⟩ := drop_destroys_all_stored w
+  rw [h] at h'
+  cases h'
+  obtain ⟨i, a, j, col, ha, hc, hcol, hmem⟩ := readable_position wf hy
+  exact hall i a j c col y ha hc hcol hmem hn
+
+/-- **(i) … each exactly once**: from a world satisfying the ledger predicate (every world of a history does:
+    `C12History.hist_cl`), after `drop` the predicate holds again — nothing is stored, and no serial `≠ 0` occurs twice in
+    the ledger or both in the ledger and among what was destroyed earlier (`H`) -/
+theorem drop_exactly_once {H : List Nat} {w w' : World} (hcl : CL H w) (h : (execOp .drop).run.run w = (.ok [], w')) :
+    CL H w' ∧ storedSers w'.archs = [] ∧ (nz (dropSers w'.cdrops ++ H)).Nodup := by
+  have r := (execOp_cl (X := H) .drop).run w hcl
+  rw [h] at r
+  obtain ⟨w'', h', hs, -⟩ := drop_destroys_all_stored w
+  rw [h] at h'
+  cases h'
+  refine ⟨r, hs, ?_⟩
+  have := (cl_spelled r).1
+  rw [hs] at this
+  simp only [List.nil_append, nz_append, List.append_assoc] at this ⊢
+  exact (List.nodup_append.1 this).2.1
+
+/-- **(i) "after the world is dropped every value with a destructor has been destroyed exactly once"**: any history of
+    valid operations from the empty world without marker exit, then `drop`.  Nothing is stored any more; every value the
+    API could read in the last world of the history, of a component type with destructor, is in the ledger of the `drop`;
+    and in the ledger of the whole history INCLUDING the drop no serial occurs twice. -/
+theorem history_then_drop {ops : List Op} (hv : ∀ op ∈ ops, op.Valid) (hc : HistClean {} ops) :
+    ∃ w', (execOp .drop).run.run (stepInit (runHist {} ops)) = (.ok [], w') ∧ storedSers w'.archs = [] ∧
+      (∀ (e : Key) (c : Nat) (y : Cell), (runHist {} ops).getCell e c = some y →
+        compNeedsDrop ((runHist {} ops).compTy c) = true → ((runHist {} ops).compTy c, y.ser) ∈ w'.cdrops) ∧
+      (nz (dropSers (w'.cdrops ++ totalLedger {} ops))).Nodup := by
+  obtain ⟨w', h, hs, -⟩ := drop_destroys_all_stored (stepInit (runHist {} ops))
+  have wf : (runHist {} ops).entities.WF := (runHist_entLe ops hv SlotMap.wf_empty).1
+  have hcl := cl_stepInit (hist_cl cl_init hc)
+  obtain ⟨-, -, hnd⟩ := drop_exactly_once hcl h
+  refine ⟨w', h, hs, fun e c y hy hn => ?_, ?_⟩
+  · exact drop_destroys_what_is_readable (w := stepInit (runHist {} ops)) wf h hy hn
+  · unfold totalLedger
+    unfold dropSers at hnd ⊢
+    simp only [List.map_append, List.append_nil] at hnd ⊢
+    exact hnd
+
 end C12NoLeak
 end Evenio
